@@ -691,6 +691,11 @@ func (s *SSEServer) handleNotificationMessage(ctx context.Context, rawMessage js
 		return
 	}
 
+	// The handshake is complete: the session may now receive server notifications.
+	if notification.Method == MethodNotificationsInitialized {
+		session.Initialize()
+	}
+
 	// Handle notification asynchronously.
 	go func() {
 		// Create a context that will not be canceled due to HTTP connection closure.
